@@ -38,6 +38,7 @@ partial def yOfJson (j : Json) : Except String Y :=
 
 def kindOfString : String → Except String Kind
   | "rule" => pure .rule | "corr" => pure .corr | "filter" => pure .filter | "collection" => pure .collection
+  | "collection_refs" => pure .collectionRef
   | k => throw s!"unknown kind {k}"
 
 def excToString : Exc → String
